@@ -1,4 +1,5 @@
 """C11 Macros bind arguments by position and return their output as a value."""
+import exectrace
 import simple
 
 
@@ -13,6 +14,10 @@ def check(run, only=None):
                 "non-trivial = arity mismatch or nested call")
     run.assumptions = ["definitions precede use; an imported macro does not itself use _self (excluded by the property statement)"]
     simple.gen_and_replay(run, "C11", nontrivial=nontrivial, only=only)
+
+    if only is None:
+        # binding T: seeded random programs over the whole schema, accepted by TLC against the reference executor
+        exectrace.run_exec_trace(run, 10000 if run.tier == "thorough" else 600, 11)
 
 
 def replay(run, path):
